@@ -31,7 +31,7 @@ ASSUMPTIONS = ["os-level events issued through Python are all seen by the audit 
                "'complete' = the file decompresses (with its .ch) to / equals the source bytes",
                "a failure is an exception raised while one chunk is being (de)compressed"]
 REQUIRED = {"compress_faults_injected": 20, "decompress_faults_injected": 20, "remove_events_judged": 4, "stale_bin_runs": 9, "twin_sync_selectors": 50, "twin_selectors": 200,
-            "roundtrips": 4, "entry_paths": 8, "twin_inconsistent_metadata": 3, "explicit_companions": 4, "silent_write_faults_injected": 20, "same_base_name_entries": 12, "noncanonical_entries": 18, "scratch_copies": 5, "odd_names": 3}
+            "roundtrips": 4, "entry_paths": 8, "twin_inconsistent_metadata": 3, "explicit_companions": 4, "silent_write_faults_injected": 20, "same_base_name_entries": 12, "noncanonical_entries": 18, "scratch_copies": 5, "odd_names": 3, "partial_uuid_entries": 8}
 CASE_TIMEOUT = 200.0
 
 
@@ -576,6 +576,29 @@ def run_case(case):
                 sr.close()
             except Exception as e:
                 res.exception("entry:uuid-exception", e, lab)
+        # ---- only SOME of the files carry a UUID (a tagged data file next to its plain-named companions, or the other way round)
+        for tagged in ("data", "companions"):
+            w = d / f"uuid-partial-{tagged}"
+            ux = str(uuid.UUID(bytes=rng.bytes(16), version=4))
+            lab = f"{kind}: UUID on the {tagged} only"
+            try:
+                bb = G.write(rec, w)
+                srx = spikeglx.Reader(bb)
+                srx.compress_file(keep_original=True, chunk_duration=0.003)
+                srx.close()
+                stem = "run_g0_t0.imec0.ap"
+                ren = {"data": [(".bin", f"{stem}.{ux}.bin"), (".cbin", f"{stem}.{ux}.cbin")], "companions": [(".meta", f"{stem}.{ux}.meta"), (".ch", f"{stem}.{ux}.ch")]}[tagged]
+                for suf, new in ren:
+                    (w / (stem + suf)).rename(w / new)
+                for p_ in sorted(w.glob("*bin")):
+                    srx = spikeglx.Reader(p_)
+                    res.count("entry_paths")
+                    res.count("partial_uuid_entries")
+                    res.check(srx.shape == (ns, rec.nc) and np.allclose(srx[:, :], cal, rtol=2.0 ** -22, atol=0), "entry:uuid-partial", f"{lab}: Reader({p_.name[-46:]}) shape {srx.shape}, "
+                              f"meta {getattr(srx.file_meta_data, 'name', None)} - does not resolve to the recording")
+                    srx.close()
+            except Exception as e:
+                res.exception("entry:uuid-partial:exception", e, lab)
         # ---- two recordings with the same base name in one folder (dataset copies tagged with their own UUID, or one of them plain-named):
         #      each file resolves ITS OWN companions, through the .bin / .cbin / .meta entry points
         w = d / "twins-in-one-folder"
